@@ -466,6 +466,19 @@ class MemFs(VirtualFilestore):
         f.size = size
         self.files[_pkey(p)] = f
 
+    def grow_source_file(self, p, extra):
+        """the pristine file is appended to (more genuine content) while a transfer is running"""
+        f = self.files[_pkey(p)]
+        if not f.base or getattr(f, "alt", False):
+            raise symex.HarnessError("only a pristine genuine source file can grow")
+        if self.w.sym:
+            new = SymInt(z3.simplify(_z(f.size) + _z(extra)))
+            f.log[0] = (0, SymBytes(0, 0, new))
+            f.size = new
+        else:
+            f.size = f.size + extra
+            self.conc[_pkey(p)] = bytearray(self.w.src_bytes(0, f.size))
+
     def add_plain_file(self, p, nbytes=0):
         """pre-existing (foreign content) file"""
         f = MemFile()
